@@ -70,7 +70,7 @@ def _word(rng, lo=1, hi=8, alpha=_TOK):
     return "".join(rng.choice(alpha) for _ in range(rng.randint(lo, hi)))
 
 
-def gen_encoders(rng, maxlen, wire_safe: bool, allow_empty_affix=True):
+def gen_encoders(rng, maxlen, wire_safe: bool, allow_empty_affix=True, blanks_ok=False):
     """A sequence of encoders. wire_safe: the final result must be printable ASCII (header/parameter/uri placement):
     the last non-affix encoder is base64/base64url/netbios/netbiosu and later affixes are printable."""
     n = rng.randint(0, maxlen)
@@ -83,6 +83,10 @@ def gen_encoders(rng, maxlen, wire_safe: bool, allow_empty_affix=True):
                 a = b""
             elif r < 0.6 or wire_safe:
                 a = _word(rng, 1, 10).encode()
+                if blanks_ok and rng.random() < 0.35:
+                    # literals as real profiles have them: "session-token=", "; lang=en-US; ", " id-" - blanks included,
+                    # also at the very edge of what ends up in a header or parameter value
+                    a = rng.choice([b" ", b"; ", b"", b"="]) + a + rng.choice([b"", b"=", b"; ", b" ", b"\t"])
             else:
                 a = bytes(rng.getrandbits(8) for _ in range(rng.randint(1, 12)))
             enc.append([k, hx(a)])
@@ -135,7 +139,8 @@ def gen_program(rng, builds, wire_safe_only: bool, verbs_body_ok: bool, allow_ur
         t = rng.choice(choices)
         safe = t != "print"
         steps.append(["build", b])
-        steps += gen_encoders(rng, rng.choice([0, 1, 2, 3, 4, 6]), wire_safe=safe)
+        # (blanks at the edge of a literal only where they can travel: in a header value, not in a URI)
+        steps += gen_encoders(rng, rng.choice([0, 1, 2, 3, 4, 6]), wire_safe=safe, blanks_ok=(t == "header"))
         if t == "header":
             name = rng.choice(["Cookie", "Authorization", "X-Session", "X-" + _word(rng, 2, 6)])
             while name.lower() in used_headers:
